@@ -782,6 +782,7 @@ struct CaseOut {
     corrupt: bool,
     silent_unanswered: Vec<u64>,
     silent_pred: bool,
+    silent_refused: u32,
     written_on: BTreeMap<u64, Vec<u64>>,
     polls: u64,
     events: BTreeMap<String, u64>,
@@ -907,6 +908,7 @@ impl Runner {
                 corrupt: false,
                 silent_unanswered: vec![],
                 silent_pred: false,
+                silent_refused: 0,
                 written_on: BTreeMap::new(),
                 polls: 0,
                 events: BTreeMap::new(),
@@ -1233,7 +1235,14 @@ impl Runner {
         if pending {
             self.apply(&Op::Conn(false)).await;
         }
+        let mut refused = if pending { 1u32 } else { 0 };
         for _ in 0..10 {
+            // the backend stays unreachable: every reconnection attempt during the probe is refused
+            let pending = { self.w.lock().unwrap().connect_pending };
+            if pending {
+                self.apply(&Op::Conn(false)).await;
+                refused += 1;
+            }
             self.apply(&Op::Adv(timeout_ms / 2 + 1)).await;
         }
         let (phase, last_pe) = {
@@ -1242,9 +1251,12 @@ impl Runner {
         };
         if phase == Phase::Up {
             self.out.silent_unanswered = self.receivers.keys().copied().collect();
-            // F08a predicate: the last poll of handle_conn on this connection consumed a tick of
-            // timeout_interval (so no waker is registered for the next one) and nothing happened since
             self.out.silent_pred = last_pe == Some(true);
+        } else if refused > 0 && phase != Phase::Exited {
+            // a refused connect answers every retried and every queued task, and sends are refused
+            // while conn_failed is set: nothing may be left waiting
+            self.out.silent_unanswered = self.receivers.keys().copied().collect();
+            self.out.silent_refused = refused;
         }
     }
 
@@ -1616,15 +1628,18 @@ fn oracle(case: u64, cfg: &Cfg, script: &[Op], out: &CaseOut, st: &mut Stats) {
         // the waker of the previous poll registered across `Interval::reset`; any hit here is a violation)
         let _ = out.silent_pred;
         let fid = "";
-        st.oracle_failure(
-            case,
-            &format!(
+        let what = if out.silent_refused > 0 {
+            format!(
+                "C08: silence: backend unreachable ({} reconnection attempts refused), tasks {:?} still unanswered (a refused connect must answer every retried and queued task)",
+                out.silent_refused, out.silent_unanswered
+            )
+        } else {
+            format!(
                 "C08: silence: connection up, backend silent for 5 timeouts, tasks {:?} still unanswered (timeout never fired)",
                 out.silent_unanswered
-            ),
-            fid,
-            replay.clone(),
-        );
+            )
+        };
+        st.oracle_failure(case, &what, fid, replay.clone());
     }
     for (id, conns) in out.written_on.iter() {
         let mut c = conns.clone();
